@@ -127,3 +127,12 @@ M("C06-R2-off-by-one", "C06", [(S, "if !self.is_buffered() && self.query.limit >
 M("C06-R3-found-before-filter", "C06", [(S, "        self.fms.clear();\n\n        if let Some(ref expr) = self.query.expr {", "        self.fms.clear();\n        self.found += 1;\n\n        if let Some(ref expr) = self.query.expr {"), (S, "            }\n        }\n\n        self.found += 1;\n", "            }\n        }\n\n")], ["found_gated"])
 M("C06-R4-limitless-swapped", "C06", [(S, "output_buffer: if limit == 0 {", "output_buffer: if limit != 0 {")], ["topn-selection"])
 M("C06-V-evict-mirrored", "C06", [(T, "if limit < self.count {", "if self.count > limit {")], kind="variant")
+
+# ---------------------------------------------------------------- C07
+M("C07-R1-int-division", "C07", [(F, "sum as f64 / size as f64", "(sum / size) as f64")], ["integer-division"])
+M("C07-R2-min-uses-max", "C07", [(F, "                .min()\n                .unwrap_or(0); // If no items were found\n\n            min.to_string()", "                .max()\n                .unwrap_or(0); // If no items were found\n\n            min.to_string()")], ["primitive_Min"])
+M("C07-R2-varsamp-divisor", "C07", [(F, "            let size = raw_output_buffer.len();\n            let n = if size == 1 { 1 } else { size - 1 };\n            let variance = get_variance(raw_output_buffer, &buffer_key, n);\n\n            variance.to_string()", "            let size = raw_output_buffer.len();\n            let n = if size == 1 { 1 } else { size };\n            let variance = get_variance(raw_output_buffer, &buffer_key, n);\n\n            variance.to_string()")], ["primitive_VarSamp"])
+M("C07-R2-stddevpop-no-sqrt", "C07", [(F, "            let n = raw_output_buffer.len();\n            let variance = get_variance(raw_output_buffer, &buffer_key, n);\n            let result = variance.sqrt();", "            let n = raw_output_buffer.len();\n            let variance = get_variance(raw_output_buffer, &buffer_key, n);\n            let result = variance;")], ["primitive_StdDevPop"])
+M("C07-R2-count-sum", "C07", [(F, "Some(Function::Count) => raw_output_buffer.len().to_string(),", "Some(Function::Count) => get_buffer_sum(raw_output_buffer, &buffer_key).to_string(),")], ["primitive_Count"])
+M("C07-R2-variance-abs", "C07", [(F, "result += (avg - value).powi(2) / n as f64;", "result += (avg - value).abs() / n as f64;")], ["variance-formula"])
+M("C07-R3-buffer-before-filter", "C07", [(S, "        self.fms.clear();\n\n        if let Some(ref expr) = self.query.expr {", "        self.fms.clear();\n        if self.has_aggregate_column() {\n            self.raw_output_buffer.push(HashMap::new());\n        }\n\n        if let Some(ref expr) = self.query.expr {")], ["buffer_"])
